@@ -166,6 +166,10 @@ mod v1 {
             Self { handle }
         }
     }
+
+    #[cfg(slawlor_ractor_verif)]
+    #[path = "/verif/hooks/port_output_v1.rs"]
+    mod verif_probe;
 }
 
 #[cfg(feature = "output-port-v2")]
